@@ -136,6 +136,57 @@ func c15gen(g *gen, tier string, w *bufio.Writer) {
 		}
 		fmt.Fprintf(w, "%s %s\n", op, strings.Join(h, ";"))
 	}
+	// wide batches: many distinct keys that already hold values (the batch reads them all in one
+	// multi-get before it appends / deletes), then every key is read back
+	nw := 30
+	if tier == "thorough" {
+		nw = 600
+	}
+	for i := 0; i < nw; i++ {
+		nk := 16 + g.intn(48)
+		key := func(k int) string { return hexTok([]byte(fmt.Sprintf("wk%02d", k))) }
+		val := func() string {
+			v := make([]byte, 1+g.intn(12))
+			for j := range v {
+				v[j] = byte('a' + g.intn(26))
+			}
+			return hexTok(v)
+		}
+		var h []string
+		have := map[int][]string{} // values a key holds after the earlier batches
+		for round := 0; round < 2+g.intn(2); round++ {
+			var items []string
+			for k := 0; k < nk; k++ {
+				// a deletion names a value the key holds (deleting an absent value fails the batch)
+				if round > 0 && len(have[k]) > 0 && g.chance(1, 6) {
+					j := g.intn(len(have[k]))
+					items = append(items, "-"+key(k)+"."+have[k][j])
+					have[k] = append(have[k][:j:j], have[k][j+1:]...)
+				}
+			}
+			for k := 0; k < nk; k++ {
+				if round == 0 || g.chance(3, 4) {
+					for r := 0; r < 1+g.intn(2); r++ {
+						v := val()
+						dup := false
+						for _, x := range have[k] {
+							dup = dup || x == v
+						}
+						if !dup {
+							items = append(items, "+"+key(k)+"."+v)
+							have[k] = append(have[k], v)
+						}
+					}
+				}
+			}
+			g.shuffle(items)
+			h = append(h, "b:"+strings.Join(items, ","))
+		}
+		for k := 0; k < nk; k++ {
+			h = append(h, "f:"+key(k))
+		}
+		fmt.Fprintf(w, "hist %s\n", strings.Join(h, ";"))
+	}
 	// raw chunk decoding of arbitrary bytes
 	for i := 0; i < 2000; i++ {
 		l := g.intn(14)
